@@ -670,6 +670,7 @@ func main() {
 	for _, g := range []struct{ path, text string }{
 		{*trDst, st.translate()},
 		{strings.TrimSuffix(*trDst, ".lean") + "Scan.lean", st.translateScan()},
+		{strings.TrimSuffix(*trDst, ".lean") + "Html.lean", st.translateHtml()},
 	} {
 		if old, err := os.ReadFile(g.path); err != nil || !bytes.Equal(old, []byte(g.text)) {
 			if err := os.WriteFile(g.path, []byte(g.text), 0o644); err != nil {
